@@ -102,6 +102,8 @@ type FN struct {
 	// DABlockTime: the node's configured DA block time (0 = one hour: nothing in the node paces itself by it during a
 	// scenario). Set it in the prepare hook of NewFNPrepared.
 	DABlockTime time.Duration
+	// PayloadHook: see NodeOpts.PayloadHook (chains with Spec.CustomPayload only). Set it in the prepare hook of NewFNPrepared.
+	PayloadHook func(*types.Header)
 }
 
 // NewFN starts a full node for the produced chain. rootDir may be "" (no cache directory: clean restarts then lose the caches).
@@ -139,7 +141,7 @@ func NewFNPrepared(ctx context.Context, p *Produced, rootDir string, prepare fun
 }
 
 func (f *FN) start(reuse *Node) error {
-	opts := NodeOpts{Aggregator: false, CustomPayload: f.P.Spec.CustomPayload, InitialHeight: f.P.Spec.Initial, DABlockTime: time.Hour, BlockTime: time.Hour, RootDir: f.RootDir, DAStartHeight: 1, DBPath: f.DBPath}
+	opts := NodeOpts{Aggregator: false, CustomPayload: f.P.Spec.CustomPayload, InitialHeight: f.P.Spec.Initial, DABlockTime: time.Hour, BlockTime: time.Hour, RootDir: f.RootDir, DAStartHeight: 1, DBPath: f.DBPath, PayloadHook: f.PayloadHook}
 	if f.DABlockTime > 0 {
 		opts.DABlockTime = f.DABlockTime
 	}
